@@ -78,6 +78,28 @@ def firstBadField (l : Layout) (d : LayoutD) : String :=
   | some x => x
   | none => "-"
 
+def regsCfgValStr : Regs.CfgVal → String
+  | .enumName n => s!"n{n}"
+  | .num v => s!"v{v}"
+  | .rawNum v => s!"r{v}"
+
+def namedCfgStr (n : NamedCfg) : String :=
+  ";".intercalate (n.map (fun e => match e.2 with
+    | .value v => s!"{e.1}=V{v}"
+    | .fields l => s!"{e.1}=" ++ "{" ++ ",".intercalate (l.map (fun fc => s!"{fc.1}:{regsCfgValStr fc.2}")) ++ "}"))
+
+/-- get_config → names → find_reg/find_bitfield → load into the fresh state → values -/
+def cfgRoundtrip (l : Layout) (d : LayoutD) (vals : Vals) : String :=
+  match Regs.getConfig (toMeta d) (toFile l d vals) with
+  | .error e => e.tag
+  | .ok cfg => match nameCfg d cfg with
+    | none => "unnameable"
+    | some n => match resolveCfg d n with
+      | none => "unresolved"
+      | some cfg' => match Regs.loadConfig (toMeta d) (toFile l d d.initVals) cfg' with
+        | .error e => e.tag
+        | .ok rf => "ok:" ++ natCsv (valuesOf rf)
+
 def stepLine (st : St) : List String → St × String
   | ["sel", i] => match parseNat i with
     | some i => (match Generated.RegLayouts.layouts[i]? with
@@ -136,6 +158,12 @@ def stepLine (st : St) : List String → St × String
         | none => (st, "bad-index"))
       | none => (st, "bad-index"))
     | _, _, _ => (st, "bad-op")
+  | ["getcfg", vals] => match Regs.getConfig (toMeta st.d) (toFile st.l st.d (csvNat vals)) with
+    | .error e => (st, e.tag)
+    | .ok cfg => match nameCfg st.d cfg with
+      | some n => (st, "ok:" ++ namedCfgStr n)
+      | none => (st, "unnameable")
+  | ["rtcfg", vals] => (st, cfgRoundtrip st.l st.d (csvNat vals))
   | ["dwhere"] => (st, firstBadField st.l st.d)
   | ["dcheck"] =>
     let bad := (List.range Generated.RegLayouts.layouts.length).filterMap (fun i =>
